@@ -19,7 +19,7 @@ AS_IS_DEV = []   # NoProxyCarryGthread: fixed in /repo (707c9ca)
 
 HDR = {"proto_s": ("X-Forwarded-Proto", "https"), "proto_i": ("X-Forwarded-Proto", "http"),
        "ssl_s": ("X-Forwarded-Ssl", "on"), "ssl_i": ("X-Forwarded-Ssl", "off"),
-       "proto_us": ("X_Forwarded_Proto", "HTTPS-us"), "sn": ("SCRIPT_NAME", "/app"), "sn_h": ("Script-Name", "/app2"),
+       "proto_us": ("X_Forwarded_Proto", "HTTPS-us"), "sn": ("SCRIPT_NAME", "/app"), "sn_h": ("Script-Name", "/app/x"),
        "pi": ("PATH_INFO", "/evil"), "cu": ("X_Custom", "cu"), "ch": ("X-Custom", "ch"), "plain": ("Accept", "pl")}
 PEER = {"listed": ("10.0.0.1", 5555), "unlisted": ("10.9.9.9", 5555), "unix": ""}
 ALLOW = {"none": "", "listed": "10.0.0.1", "star": "*"}
@@ -61,7 +61,7 @@ def observe(case, rng):
         n, v = HDR[h]
         if "_" not in n and h != "sn_h":
             n = randcase(n, rng)
-        if h in ("cu", "ch", "plain", "pi", "sn_h"):
+        if h in ("cu", "ch", "plain", "pi"):
             v = "%s%d" % (v, i)
         lines.append((n, v))
     hdrs = "".join("%s: %s\r\n" % (n, v) for n, v in lines).encode("latin-1")
@@ -87,7 +87,7 @@ def observe(case, rng):
     if env is not None:
         obs["out"] = "app"
         obs["scheme"] = env.get("wsgi.url_scheme")
-        obs["sn"] = env.get("SCRIPT_NAME") == "/app"
+        obs["sn"] = env.get("SCRIPT_NAME", "") != ""
         obs["addr"] = "declared" if env.get("REMOTE_ADDR") == "1.2.3.4" else "peer"
         byval = {}
         for i, (n, v) in enumerate(lines):
